@@ -378,6 +378,7 @@ pub async fn exec_c15(script: Value) -> ExecResult {
     let mut findings: Vec<Violation> = vec![];
     let mut zombie: Option<Violation> = None;
     let mut overtaken: Option<Violation> = None;
+    let mut stale_live: Option<Violation> = None;
     let r: VResult<()> = async {
         cluster_up(&root, &cfg, id).await?;
         advance(8_000).await;
@@ -394,6 +395,8 @@ pub async fn exec_c15(script: Value) -> ExecResult {
         let mut http_touched: BTreeSet<(u8, u8)> = BTreeSet::new();
         let mut faulted = false;
         let mut owners_seen: BTreeMap<(u8, u8), BTreeSet<(u64, u8)>> = BTreeMap::new();
+        // when an HTTP address was last deregistered (us)
+        let mut http_removed_at: BTreeMap<(u8, u8), u64> = BTreeMap::new();
         let mut rng = Rng::derive(seed, "C15.exec", 0);
         let mut last_beat = sim::now_us();
         // heartbeats of the HTTP instances continue throughout (otherwise they legitimately expire)
@@ -483,6 +486,7 @@ pub async fn exec_c15(script: Value) -> ExecResult {
                     let q = format!("serviceName={}&ip={}&port=8080&namespaceId={}&groupName={}", CSVCS[s as usize], c_ip(a), NS, GROUP);
                     let res = within(8_000, http_call(&node(x).unwrap(), "DELETE", &format!("/nacos/v1/ns/instance?{}", q))).await;
                     http_alive.remove(&(s, a));
+                    http_removed_at.insert((s, a), sim::now_us());
                     if matches!(res, Some((200, _))) {
                         unknown.remove(&(s, a));
                     } else {
@@ -591,13 +595,51 @@ pub async fn exec_c15(script: Value) -> ExecResult {
             // addresses are reported as findings and taken out of the comparison; in a run without any fault, and for every
             // other address, the full oracle applies.
             let gone_http: BTreeSet<String> = http_touched.iter().filter(|k| k.0 == s && !http_alive.contains_key(k) && !grpc_alive.contains_key(k)).map(|k| c_ip(k.1)).collect();
-            if !gone_http.is_empty() && faulted {
+            // without injected faults the same staleness arises when a full-state message (answer to one of the snapshot
+            // pulls 1 / 15 / 45 s after a node's start, or the push after 30 s) travels while the removal is being
+            // propagated: the third node's copy comes back a millisecond after the removal
+            let snap_times = naming_snapshot_msg_times();
+            let raced: BTreeSet<String> = http_removed_at.iter().filter(|(k, t)| k.0 == s && snap_times.iter().any(|st| *st + 1_000_000 >= **t && *st <= **t + 2_000_000)).map(|(k, _)| c_ip(k.1)).collect();
+            let gone_http: BTreeSet<String> = if faulted { gone_http } else { gone_http.intersection(&raced).cloned().collect() };
+            if !gone_http.is_empty() {
                 let still: Vec<&String> = gone_http.iter().filter(|ip| per_node.values().any(|v| v.iter().any(|e| &e.0 == *ip))).collect();
                 if !still.is_empty() && zombie.is_none() {
-                    zombie = Some(Violation::new("C15.removed_http_instance_still_served", format!("service {}: address(es) {:?} were registered over HTTP and then deregistered or left without heartbeats (an operation on them went unanswered) while faults were injected; {} s after quiescence they are still served: {:?}", name, still, b_ms / 1000, per_node)));
+                    zombie = Some(Violation::new("C15.removed_http_instance_still_served", format!("service {}: address(es) {:?} were registered over HTTP and then deregistered or left without heartbeats (an operation on them went unanswered) while faults were injected or a snapshot message was in flight; {} s after quiescence they are still served: {:?}", name, still, b_ms / 1000, per_node)));
                 }
                 for v in per_node.values_mut() {
                     v.retain(|e| !gone_http.contains(&e.0));
+                }
+            }
+            // (F26, continued) sync messages that were lost are never repeated for HTTP instances (no anti-entropy apart from
+            // the pulls right after a node's start): after injected loss / partitions / a node's absence the nodes may keep
+            // different fields or different health for a *live* HTTP address as well (seen: seeds 202211, 203092)
+            if faulted {
+                let live_http: BTreeSet<String> = http_alive.keys().filter(|k| k.0 == s).map(|k| c_ip(k.1)).collect();
+                let views: Vec<BTreeSet<(String, bool, bool, u32)>> = per_node.values().map(|v| v.iter().filter(|e| live_http.contains(&e.0)).cloned().collect()).collect();
+                if views.iter().any(|v| *v != views[0]) {
+                    if stale_live.is_none() {
+                        stale_live = Some(Violation::new("C15.http_instance_not_reconciled_after_faults", format!("service {}: the nodes serve different fields or health for live HTTP address(es) {} s after the faults stopped (a sync message lost to an injected fault is never repeated): {:?}", name, b_ms / 1000, per_node)));
+                    }
+                    // keep presence comparable: compare these addresses by ip only
+                    for v in per_node.values_mut() {
+                        let repl: Vec<(String, bool, bool, u32)> = v.iter().filter(|e| live_http.contains(&e.0)).map(|e| (e.0.clone(), true, true, 0)).collect();
+                        v.retain(|e| !live_http.contains(&e.0));
+                        v.extend(repl);
+                    }
+                }
+            }
+            // (F27) an address that changed hands: the previous owner's delayed messages may overwrite the newer
+            // registration's fields as well as delete it
+            let handed: BTreeSet<String> = grpc_alive.keys().filter(|k| k.0 == s && (http_touched.contains(k) || owners_seen.get(k).map(|o| o.len() > 1).unwrap_or(false))).map(|k| c_ip(k.1)).collect();
+            if !handed.is_empty() {
+                let views: Vec<BTreeSet<(String, bool, bool, u32)>> = per_node.values().map(|v| v.iter().filter(|e| handed.contains(&e.0)).cloned().collect()).collect();
+                if views.iter().any(|v| *v != views[0]) {
+                    if overtaken.is_none() {
+                        overtaken = Some(Violation::new("C15.registration_deleted_by_stale_sync", format!("service {}: address(es) {:?} changed hands (registered by another client before, over HTTP or over gRPC on another node) and are now held by an open gRPC connection; the previous client's delayed update / removal sync overwrote the newer registration on some nodes: {:?}", name, handed, per_node)));
+                    }
+                    for v in per_node.values_mut() {
+                        v.retain(|e| !handed.contains(&e.0));
+                    }
                 }
             }
             let first = per_node.values().next().cloned().unwrap_or_default();
@@ -620,7 +662,7 @@ pub async fn exec_c15(script: Value) -> ExecResult {
             }
             for ((ms, a), (x, c)) in &grpc_alive {
                 if *ms == s {
-                    if !ips.contains(&c_ip(*a)) && (http_touched.contains(&(s, *a)) || owners_seen.get(&(s, *a)).map(|o| o.len() > 1).unwrap_or(false)) {
+                    if handed.contains(&c_ip(*a)) && !ips.contains(&c_ip(*a)) {
                         if overtaken.is_none() {
                             overtaken = Some(Violation::new("C15.registration_deleted_by_stale_sync", format!("service {}: the instance {} held by the open gRPC connection {} on live node {} is served by no node; the same address had been registered by another client before (over HTTP, or over gRPC on another node), and that client's delayed update / removal sync overwrote and deleted the newer registration", name, c_ip(*a), c_conn(*x, *c), x)));
                         }
@@ -646,6 +688,10 @@ pub async fn exec_c15(script: Value) -> ExecResult {
     if let Some(z) = overtaken {
         findings.push(z);
     }
+    if let Some(z) = stale_live {
+        findings.push(z);
+    }
+
     let info = RunInfo { digest, nontrivial: ops >= 4, info: json!({"ops": ops}), findings };
     for n in live_nodes() {
         kill_node(n.id).await;
